@@ -128,4 +128,17 @@ Section Seg.
     transitivity (tmul (tmul (tmul ninv (ofnat T t0 t1 tadd n)) (dft T t0 tadd tmul n W x k)) (W (Z.of_nat k * Z.of_nat m))); [ring|].
     rewrite ninv_ok. ring.
   Qed.
+
+  (* a tone at DFT bin k0 of a segment appears, with unit amplitude, in exactly the sub-channel that holds that bin
+     (sub-channel j holds bin (j - P/2) mod P, whose label is the tone's frequency by stft_labels) and nowhere else *)
+  Theorem stft_seg_tone (k0 j : nat) : (k0 < n)%nat -> (j < n)%nat ->
+    stft_seg T t0 tadd tmul n W ninv (tone T W k0) j =
+    if Nat.eq_dec (Z.to_nat (stft_bin (Z.of_nat n) (Z.of_nat j))) k0 then t1 else t0.
+  Proof.
+    intros H0 Hj. unfold stft_seg.
+    assert (Hb : (Z.to_nat (stft_bin (Z.of_nat n) (Z.of_nat j)) < n)%nat).
+    { unfold stft_bin, unshift_idx. pose proof (Z.mod_pos_bound (Z.of_nat j - Z.of_nat n / 2) (Z.of_nat n) ltac:(lia)). lia. }
+    rewrite (dft_tone T t0 t1 tadd tmul tsub topp Tring Tint n npos W W_add W_0 W_n W_prim k0 _ H0 Hb).
+    destruct (Nat.eq_dec _ k0); [exact ninv_ok|ring].
+  Qed.
 End Seg.
